@@ -531,6 +531,14 @@ def tail_protocol(ctx, rr):
         facts = gfr.facts_at(wl[0].test) or set()
         okh = any(f[0] == 'T' and f[1] == 'self.has_tail()' for f in facts)
         ok = okb and okh
+    if len(wl) == 1:
+        # every chunk read by the loop ends up in the tail: inside the loop the tail is grown (`+=`, a list that is joined afterwards), never re-bound
+        plain = [a for a in ast.walk(wl[0]) if isinstance(a, ast.Assign) and any(ast.unparse(t) == 'self.tail' for t in a.targets)
+                 and not any(ast.unparse(x) == 'self.tail' for x in ast.walk(a.value))]
+        rr.ob(ctx.where(r, wl[0]), 'read: the tail is assembled from every chunk the loop reads', ok=not plain)
+        for a in plain[:1]:
+            fail(r, a, 'the tail loop re-binds self.tail to the chunk just read (`%s`): for a stem of three blocks or more only the last chunk survives, the stem read back is not the '
+                 'stem written' % ast.unparse(a)[:50])
     rr.ob(ctx.where(r), 'read: the tail loop is entered iff the head has HAS_TAIL and stops at the first block without HAS_TAIL (bit %s)' % has_tail_bit, ok=ok)
     if not ok:
         fail(r, wl[0] if wl else r.node, 'tail reader no longer continues exactly while the block just read carries the HAS_TAIL flag the writer sets')
